@@ -199,6 +199,11 @@ func (sc *C03Scenario) Execute(t *testing.T) *core.Outcome {
 				if et != leafRT && !simrt.Dying() {
 					reenter(hop)
 				}
+			}), eventbus.WithAfterPublishContext(func(ctx context.Context, et reflect.Type, ev any) {
+				if et != leafRT && !simrt.Dying() {
+					ctx.Err() // a hook that looks at the context it is given, like the handlers started before it
+					reenter(hop)
+				}
 			}))
 		}
 		w = NewWorld(opts...)
